@@ -257,15 +257,8 @@ func FloatToString(value float64) string {
 // int to other
 
 func IntToBigDecimalFloat(value int64) apd.Decimal {
-	if value < 0 {
-		return apd.Decimal{
-			Negative: true,
-			Coeff:    *big.NewInt(-value),
-		}
-	}
-	return apd.Decimal{
-		Coeff: *big.NewInt(value),
-	}
+	// (not -value: the smallest int64 has no negation)
+	return *apd.New(value, 0)
 }
 
 func IntToUint(value int64) (uint64, error) {
